@@ -40,4 +40,7 @@ TABLES = [
     dict(opts=[("-h", 0), ("-v", 0), ("--version", 0), ("-o", 1), ("-q", 0)], missing=None, compact=True),
     dict(opts=[("-x", 1), ("--long", 1), ("-y", 0)], missing=3, compact=True),
     dict(opts=[("-z", 0)], missing=None, compact=True),
+    # the first label on the very line of GETOPT_SWITCH
+    dict(opts=[("-a", 0), ("-b", 1), ("--cee", 0)], missing=None, compact=True, first_on_switch_line=True),
+    dict(opts=[("--alpha", 1), ("-k", 0)], missing=None, first_on_switch_line=True),
 ]
